@@ -1,3 +1,4 @@
+pub mod cli;
 pub mod ctx;
 pub mod extract;
 pub mod heapmon;
@@ -8,6 +9,7 @@ pub mod refimport;
 pub mod refparse;
 pub mod render;
 pub mod panicguard;
+pub mod pipeline;
 pub mod props;
 pub mod report;
 pub mod rng;
@@ -23,6 +25,8 @@ pub fn run_property(ctx: &Ctx, rep: &mut Report) -> Result<(), String> {
             props::c06::run_lib(ctx, rep);
         }
         "C07" => props::c07::run(ctx, rep),
+        "C08" => props::c08::run(ctx, rep),
+        "C08L" => props::c08::run_loader(ctx, rep),
         "C11" => props::c11::run(ctx, rep),
         "C13" => props::c13::run(ctx, rep),
         "C19" => props::c19::run(ctx, rep),
@@ -37,6 +41,7 @@ pub fn replay_case(case: &Value, ctx: &Ctx) -> Result<Vec<Violation>, String> {
     match case["property"].as_str().unwrap_or("") {
         "C06" => Ok(props::c06::replay(case)),
         "C07" => Ok(props::c07::replay(case)),
+        "C08" => Ok(props::c08::replay(case, ctx)),
         "C11" => Ok(props::c11::replay(case)),
         "C13" => Ok(props::c13::replay(case)),
         "C19" => Ok(props::c19::replay(case)),
